@@ -308,6 +308,11 @@ def structure_tags(spec: dict) -> t.Set[str]:
     def cone(c: str) -> t.Set[str]:
         return {c} | S.ancestors(deps, c)
 
+    regions = [(arg['dest'], S.rec_region(spec, deps, arg['start'], arg['dest'])) for _, arg in S.rec_marks(spec)]
+    for i, (d1, r1) in enumerate(regions):
+        for d2, r2 in regions[i + 1:]:
+            if d1 != d2 and r1 & r2 and not (r1 <= r2 or r2 <= r1):
+                tags.add('rec.overlapping-regions')
     for n, nd in nodes.items():
         for kw, kind, arg in nd['params']:
             if kind == 'rec':
